@@ -15,7 +15,7 @@ from svx.configs import make_dim, make_dimset, subsets, label_tuples, lens_key, 
 PROPERTY = "C04"
 FUNCTIONS = ["FlodymArray.cast_values_to", "FlodymArray.sum_values_to", "FlodymArray.__mul__", "FlodymArray.__setitem__", "SubArrayHandler._init_ids",
              "LifetimeModel.cast_any_to_np_array", "DataFrameToFlodymDataConverter._sort_columns", "FlodymArray.to_df", "flodym_array_stack", "FlodymArray.split"]
-ASSUMPTIONS = ["scipy kernels uninterpreted (lifetime-parameter harness)", "DataFrame round trip: dimensions with string items (value/item confusion is C11's subject)"]
+ASSUMPTIONS = ["scipy kernels uninterpreted (lifetime-parameter harness)", "DataFrame round trip: cell values pairwise different", "DataFrame round trip: dimensions with string items (value/item confusion is C11's subject)"]
 OUTSIDE = ["more than 4 dimensions", "lengths above 3"]
 BOUNDS = {"quick": dict(universe="abc (+d for unary ops)", lengths="(2,2,2,2) and (2,3,2,1)", permutations="all (<= 24 per array, all pairs for binary operations on <= 3 dims)"),
           "thorough": dict(universe="abcd", lengths="(2,2,2,2) (2,3,2,1) (3,2,3,2)", permutations="all; binary operations with up to 4 and 3 dims")}
@@ -40,18 +40,20 @@ def configs(tier, seed):
             for sy in subsets(Ub):
                 if len(sx) + len(sy) > (6 if tier == "quick" else 7) or (len(sx) == 4 and len(sy) == 4):
                     continue
+                if len(sx) < 2 and len(sy) < 2:
+                    continue  # a single storage order only
                 for op in BINOPS:
                     if op == "pow" and any(l not in sx for l in sy):
                         continue
                     out.append(dict(h="binop", op=op, key=f"binop/{op}/x={sx or '-'}/y={sy or '-'}/{lk}", sx=sx, sy=sy, lens=lens))
-        for sx in subsets("abcd", min_size=1):
+        for sx in subsets("abcd", min_size=2):
             for op in UNOPS:
                 out.append(dict(h="unop", op=op, key=f"unop/{op}/x={sx}/{lk}", sx=sx, lens=lens))
         for st in subsets("abc", min_size=1):
             for ss in subsets("abcd"):
-                if all(l in ss for l in st) and len(ss) <= len(st) + 1:
+                if all(l in ss for l in st) and len(ss) <= len(st) + 1 and len(ss) >= 2:
                     out.append(dict(h="assign", op="assign", key=f"assign/t={st}/s={ss}/{lk}", st=st, ss=ss, lens=lens))
-        for sx in subsets("abc", min_size=1):
+        for sx in subsets("abc", min_size=2):
             out.append(dict(h="df", op="df", key=f"df/x={sx}/{lk}", sx=sx, lens=lens))
             out.append(dict(h="stack", op="stack", key=f"stack/x={sx}/{lk}", sx=sx, lens=lens))
     for lt in ["NormalLifetime", "WeibullLifetime", "FixedLifetime"]:
@@ -97,7 +99,8 @@ def _cmp(w, tag, ref, res, want_letters=None):
 
 
 def run(cfg, w):
-    from flodym import FlodymArray, Dimension, DimensionSet, flodym_array_stack
+    from flodym import FlodymArray, Dimension, DimensionSet
+    from flodym.flodym_array_helper import flodym_array_stack
 
     h = cfg["h"]
     lens = cfg["lens"]
@@ -203,6 +206,7 @@ def run(cfg, w):
     if h == "df":
         sx = cfg["sx"]
         X = w.arr("x", tuple(lens[l] for l in sx))
+        w.assume_distinct(X)
         ref = _arr(w, dims, lens, sx, sx, X)
         for px in itertools.permutations(sx):
             a = _arr(w, dims, lens, sx, px, X)
